@@ -945,6 +945,10 @@ class CombinedMultiDict(ImmutableMultiDictMixin[K, V], MultiDict[K, V]):  # type
         """
         return MultiDict(self)
 
+    def deepcopy(self, memo: t.Any = None) -> MultiDict[K, V]:  # type: ignore[override]
+        """Return a deep mutable copy of this object, like :meth:`copy`."""
+        return MultiDict(deepcopy(self.to_dict(flat=False), memo))
+
     def __len__(self) -> int:
         return len(self._keys_impl())
 
